@@ -29,6 +29,8 @@ SCANS = {
         'what': 'uses of the variants SDS::Inline / SDS::Heap outside sds.rs (sds_wf: representation invariant of the byte-string type)',
         'patterns': [r'\bSDS\s*::\s*(Inline|Heap)\b'],
         'any_receiver': True,
+        # naming a variant outside sds.rs loses the FRAME of the invariant (a match that only reads is harmless): undecided, never an alarm
+        'frame_only': True,
     },
     # TYPE INVARIANTS.  A representation invariant that a unit states as pre- and postcondition of a type's methods holds for
     # every value of the type in the program - so callers (and the other units' contract-only stubs) need not demand it - iff
